@@ -1,8 +1,12 @@
-(* Property C04, closed form, NAK procedure — a receiver that is waiting for missing data and never hears from the sender
-   again is idle after exactly N + M timer expiries (N = NAK limit, M = Positive ACK limit): N-1 times the same NAK
-   sequence is issued again, the N-th expiry declares NAK Limit Reached, cancels, completes the cancelled transaction
-   and sends Finished (NAK Limit Reached); that PDU is re-sent M-1 times and the M-th expiry abandons silently.
-   For every N >= 1 and M >= 1.  DRAFT: the prover fixes the exact outputs after evaluating the model. *)
+(* Property C04, closed form, NAK procedure — a silent sender cannot hang the receiver: waiting for missing data
+   (deferred lost-segment procedure active, something missing — file data and/or the metadata —, NAK timer just started,
+   NAK counter 0) and never hearing from the sender again, the receiver is idle after exactly N + M timer expiries
+   (N = NAK limit, M = Positive ACK limit): N-1 times the same NAK sequence is issued again (every expiry below the
+   limit is a re-issue: same PDUs, counter advanced, timer restarted); the N-th expiry declares NAK Limit Reached
+   (handler: cancel), and the same call completes the cancelled transaction (the incomplete file is deleted if the
+   remote configuration says so), queues Finished (NAK Limit Reached) and starts the Positive ACK procedure; that PDU
+   is re-sent M-1 times and the M-th expiry abandons silently (the transaction is already cancelled).
+   For every N >= 1 and M >= 1, any tracker, metadata missing or not, any maximum packet length. *)
 From CFDP Require Import Base LostSeg LostSegSpec Fs Handler Dest HandlerSpec.
 From CFDP.proofs Require Import SilentSenderProofs.
 From RecordUpdate Require Import RecordSet.
@@ -27,28 +31,52 @@ Fixpoint expires_d (n : nat) (ms : Z) (s : dst) : dst * res Z (list (list pdu)) 
            end
   end.
 
-Theorem c04_dest_silent_sender_bounded : forall (N M : nat) (s : dst) (r : rcfg) (a b eos : Z),
+(* the NAK sequence of one (re-)issue of the deferred procedure: the metadata request (0,0) first if the metadata is
+   missing (flushed alone when a PDU holds one request), then the tracked ranges in order, split by Dest.nak_split into
+   PDUs of [maxn] requests plus a remainder PDU; scope (0, eos) on every PDU *)
+Definition nak_seq (h : hdr) (eos maxn : Z) (mdm : bool) (tr : tracker) : list pdu :=
+  let '(pre, acc0) := if mdm then (if 1 =? maxn then ([PNak h 0 eos [(0, 0)]], []) else ([], [(0, 0)])) else ([], []) in
+  let '(ps, rest) := nak_split h eos maxn acc0 tr in
+  pre ++ ps ++ (match rest with [] => [] | _ => [PNak h 0 eos rest] end).
+
+Definition nak_reqs (p : pdu) : list (Z * Z) := match p with PNak _ _ _ r => r | _ => [] end.
+
+(* what that sequence requests (cf. props/C06.v): exactly (0,0) iff the metadata is missing, then the tracked ranges,
+   in order; every PDU carries between 1 and maxn requests *)
+Theorem c04_nak_seq_exact : forall h eos maxn mdm tr, 1 <= maxn ->
+  flat_map nak_reqs (nak_seq h eos maxn mdm tr) = (if mdm then [(0, 0)] else []) ++ tr /\
+  Forall (fun p => exists rq, p = PNak h 0 eos rq /\ 1 <= zlen rq <= maxn) (nak_seq h eos maxn mdm tr).
+Proof. exact nak_seq_exact. Qed.
+Print Assumptions c04_nak_seq_exact.
+
+Theorem c04_dest_silent_sender_bounded : forall (N M : nat) (s : dst) (r : rcfg) (a b eos maxn : Z),
   (1 <= N)%nat -> (1 <= M)%nat -> r_nak_limit r = Z.of_nat N -> r_ack_limit r = Z.of_nat M ->
-  0 < r_nak_ms r -> 0 < r_ack_ms r ->
-  d_state s = ST_BUSY -> d_step s = DS_WAITING_FOR_MISSING_DATA -> d_queue s = [] -> d_ready s = 0 ->
+  0 < r_ack_ms r ->
+  d_state s = ST_BUSY ->
+  d_step s = (if p_md_missing (d_p s) then DS_WAITING_FOR_METADATA else DS_WAITING_FOR_MISSING_DATA) ->
+  d_queue s = [] -> d_ready s = 0 ->
   h_mode (p_conf (d_p s)) = ACKED -> p_rcfg (d_p s) = Some r -> p_tid (d_p s) = Some (a, b) ->
-  p_deferred (d_p s) = true -> p_file_size_eof (d_p s) = Some eos -> p_md_missing (d_p s) = false ->
-  p_tracker (d_p s) <> [] -> Inv (p_tracker (d_p s)) ->
+  p_deferred (d_p s) = true -> p_file_size_eof (d_p s) = Some eos ->
+  (p_tracker (d_p s) <> [] \/ p_md_missing (d_p s) = true) ->
   p_proc_timer (d_p s) = Some (now_d s, r_nak_ms r) -> p_nak_counter (d_p s) = 0 ->
-  p_disp (d_p s) <> DISP_CANCELED ->
+  (* the number of requests a NAK PDU can hold is computable (only consulted when NAKs are re-issued, i.e. N >= 2;
+     it was, when the sequence was issued the first time) *)
+  ((2 <= N)%nat -> max_seg_reqs (r_max_packet r) (p_conf (d_p s)) = Some maxn) ->
   get_fault_handler (l_faults (d_cfg s)) C_NAK_LIMIT = Some FH_CANCEL ->
   let h := set_dir TOWARDS_SENDER (p_conf (d_p s)) in
   let f := p_fin (d_p s) in
   let del := r_disposition r && (f_deliv f =? DATA_INCOMPLETE) in
   let fstatus' := if del then FS_DISCARDED_DELIBERATELY else f_fstatus f in
   let fin := PFinished h C_NAK_LIMIT (f_deliv f) fstatus' (f_fl f) in
-  (* naks: the NAK sequence for what is missing; the prover replaces the existential by the closed expression of
-     props/C06.v (nak_split of the tracker, scope (0, eos), as many requests per PDU as max_packet_len allows) *)
-  exists naks s1 s',
+  let naks := nak_seq h eos maxn (p_md_missing (d_p s)) (p_tracker (d_p s)) in
+  exists s1 s',
     expires_d N (r_nak_ms r) s = (s1, Ok (repeat naks (N - 1) ++ [[fin]])) /\
     expires_d M (r_ack_ms r) s1 = (s', Ok (repeat [fin] (M - 1) ++ [[]])) /\
     naks <> [] /\ Forall (fun p => match p with PNak _ _ _ _ => True | _ => False end) naks /\
-    d_state s' = ST_IDLE /\ d_step s' = DS_IDLE /\ d_queue s' = [] /\
-    fs_d s' = (if del then fst (fs_delete_file (fs_d s) (p_file_name (d_p s))) else fs_d s).
+    d_state s' = ST_IDLE /\ d_step s' = DS_IDLE /\ d_queue s' = [] /\ d_ready s' = 0 /\ d_p s' = fresh_params /\
+    fs_d s' = (if del then fst (fs_delete_file (fs_d s) (p_file_name (d_p s))) else fs_d s) /\
+    log_d s' = EvFault FH_ABANDON a b C_NAK_LIMIT (p_progress (d_p s)) ::
+               (if l_ind_fin (d_cfg s) then [EvFinished a b C_NAK_LIMIT (f_deliv f) fstatus' (f_fl f)] else []) ++
+               EvFault FH_CANCEL a b C_NAK_LIMIT (p_progress (d_p s)) :: log_d s.
 Proof. exact dest_silent_sender_bounded. Qed.
 Print Assumptions c04_dest_silent_sender_bounded.
